@@ -8,10 +8,9 @@ Local Open Scope list_scope.
 (** * Strings *)
 
 (** Characters a string value produced by the parser can contain: the lexer's
-    string scanner and [unescape] reject code points below 8, [\uXXXX] cannot
-    denote a lone surrogate, and Python strings end at U+10FFFF. *)
-Definition wf_char (c : N) : Prop :=
-  8 <= c /\ c < 1114112 /\ ~ (55296 <= c <= 57343).
+    string scanner and [unescape] reject code points below 8, and Python
+    strings end at U+10FFFF.  (A lone surrogate can be there, written raw.) *)
+Definition wf_char (c : N) : Prop := 8 <= c /\ c < 1114112.
 Definition wf_str (s : str) : Prop := Forall wf_char s.
 
 Lemma hexval_hexd k : k < 16 -> hexval (hexd k) = Some k.
@@ -85,10 +84,13 @@ Definition uesc (c : N) : str :=
     c_bs :: 117 :: hex4 (55296 + d / 1024) ++ c_bs :: 117 :: hex4 (56320 + d mod 1024)
   else c_bs :: 117 :: hex4 c.
 
-Lemma unescape_uesc c T n : wf_char c ->
+Lemma unescape_uesc c T n : wf_char c -> is_surrogate c = false ->
   unescape_fuel (S n) (uesc c ++ T) = (do t <- unescape_fuel n T;; Ok (c :: t)).
 Proof.
-  intros (W1 & W2 & W3). unfold uesc.
+  intros (W1 & W2) Hs.
+  assert (W3 : ~ (55296 <= c <= 57343)).
+  { unfold is_surrogate in Hs. intros [A B]. apply N.leb_le in A, B. rewrite A, B in Hs. discriminate. }
+  unfold uesc.
   destruct (65535 <? c) eqn:Ebig.
   - apply N.ltb_lt in Ebig.
     assert (Ed : exists d, c = 65536 + d /\ d < 1048576) by (exists (c - 65536); lia).
@@ -139,7 +141,7 @@ Lemma unescape_chunk printable q c nx T n : wf_char c ->
   unescape_fuel (S n) (esc1_v printable q c nx ++ T)
   = (do t <- unescape_fuel n T;; Ok (c :: t)).
 Proof.
-  intros W. pose proof W as (W1 & W2 & W3).
+  intros W. pose proof W as (W1 & W2).
   unfold esc1_v.
   assert (Common : forall qc, ((c =? qc) || (c =? c_bs) = false) ->
     unescape_fuel (S n)
@@ -147,7 +149,7 @@ Proof.
         then [c_bs; c_dollar]
         else if c =? 10 then [c_bs; 110] else if c =? 13 then [c_bs; 114]
         else if c =? 9 then [c_bs; 116] else if c =? 8 then [c_bs; 98]
-        else if c =? 12 then [c_bs; 102] else if printable c then [c] else uesc c) ++ T)
+        else if c =? 12 then [c_bs; 102] else if printable c || is_surrogate c then [c] else uesc c) ++ T)
     = (do t <- unescape_fuel n T;; Ok (c :: t))).
   { intros qc E. apply orb_false_iff in E as [_ Ebs]. apply N.eqb_neq in Ebs.
     destruct ((c =? c_dollar) && _) eqn:Ed.
@@ -157,8 +159,8 @@ Proof.
     destruct (c =? 9) eqn:E9; [apply N.eqb_eq in E9; subst c; reflexivity|].
     destruct (c =? 8) eqn:E8; [apply N.eqb_eq in E8; subst c; reflexivity|].
     destruct (c =? 12) eqn:E12; [apply N.eqb_eq in E12; subst c; reflexivity|].
-    destruct (printable c); [apply unescape_lit; assumption|].
-    apply unescape_uesc; assumption. }
+    destruct (printable c || is_surrogate c) eqn:Ep; [apply unescape_lit; assumption|].
+    apply orb_false_iff in Ep as [_ Ep]. apply unescape_uesc; assumption. }
   destruct q.
   - destruct (c =? c_sq) eqn:Esq.
     + apply N.eqb_eq in Esq. subst c. reflexivity.
@@ -257,7 +259,7 @@ Proof.
   destruct (c =? 9); [apply two; discriminate|].
   destruct (c =? 8); [apply two; discriminate|].
   destruct (c =? 12); [apply two; discriminate|].
-  destruct (printable c).
+  destruct (printable c || is_surrogate c).
   { cbn [app]. apply replace_sq_cons. left; exact Ebs. }
   assert (U : forall k R, replace_sq ((c_bs :: 117 :: hex4 k) ++ R)
                           = (c_bs :: 117 :: hex4 k) ++ replace_sq R).
@@ -390,7 +392,8 @@ Section Roundtrip.
         { intros r0 H. cbn [path_of_tpath]. rewrite (unescape_property s Ep), H. split; reflexivity. }
         destruct (D _ (IH Wr nested false)) as [D1 D2].
         destruct first; cbn [negb]; [|exact D1].
-        destruct (negb nested && _ && is_reserved s); [|exact D2].
+        destruct (negb nested && (match r with PEnd => true | _ => false end && is_reserved s
+                                  || starts_uspace s)); [|exact D2].
         apply quoted_seg_roundtrip; [assumption|apply IH; assumption].
       + apply quoted_seg_roundtrip; [assumption|apply IH; assumption].
     - cbn [print_path path_of_tpath]. rewrite (IH W). reflexivity.
@@ -412,10 +415,11 @@ Section Roundtrip.
     destruct p as [|s0 r|z r|q r]; cbn [print_path]; try discriminate.
     unfold quoted_seg. destruct (string_repr printable s0) as [q0 raw0].
     destruct (is_property s0); cbn [negb]; [|discriminate].
-    destruct (true && match r with PEnd => true | _ => false end && is_reserved s0) eqn:C;
-      [discriminate|].
+    destruct (true && (match r with PEnd => true | _ => false end && is_reserved s0
+                       || starts_uspace s0)) eqn:C; [discriminate|].
     intro H. inversion H as [[H1 H2]]. subst s0.
-    apply print_path_end in H2. subst r. exact C.
+    apply print_path_end in H2. subst r.
+    cbn [andb] in C. apply orb_false_iff in C as [C _]. exact C.
   Qed.
 
   Lemma not_reserved_word s : is_reserved s = false ->
@@ -441,13 +445,14 @@ Section Roundtrip.
     | PStr s => wf_str s
     | PPath pa => wf_path pa
     | PRange a b => range_start_ok a /\ range_stop_ok b /\ wf_prim a /\ wf_prim b
+    | PContinue => False        (* only [LoopExpression.parse] makes it, for [offset:] *)
     | _ => True
     end.
 
   Lemma atok_roundtrip rs p : wf_prim p -> (forall a b, p <> PRange a b) ->
     parse_atok (prim_atok printable rs p) = Ok p.
   Proof.
-    intros W NR. destruct p as [| | | | |z|f|s|pa|a b]; cbn [prim_atok]; try reflexivity.
+    intros W NR. destruct p as [| | | | |z|f|s|pa|a b|]; cbn [prim_atok]; try reflexivity.
     - cbn [wf_prim] in W. cbn [parse_atok]. rewrite W. reflexivity.
     - destruct f; cbn [wf_prim] in W; [reflexivity|reflexivity|congruence].
     - cbn [wf_prim] in W. pose proof (string_roundtrip printable s W) as E.
@@ -465,12 +470,13 @@ Section Roundtrip.
       destruct (unescape s) as [s'| | |]; cbn [bind] in *; try discriminate.
       inversion R. reflexivity.
     - exfalso. apply (NR a b). reflexivity.
+    - contradiction.
   Qed.
 
   Lemma prim_roundtrip p : wf_prim p ->
     parse_primitive (Some (print_prim printable p)) = Ok p.
   Proof.
-    intro W. destruct p as [| | | | |z|f|s|pa|a b];
+    intro W. destruct p as [| | | | |z|f|s|pa|a b|];
       try (cbn [print_prim parse_primitive]; apply atok_roundtrip; [exact W|discriminate]).
     destruct W as (Sa & Sb & Wa & Wb). cbn [print_prim parse_primitive].
     rewrite atok_roundtrip; [|exact Wa|destruct a; cbn in Sa; try contradiction; discriminate].
@@ -887,7 +893,7 @@ Section Filtered.
     pose proof (prim_roundtrip printable p W) as R.
     destruct (arg_prim_tok (pprim p)) eqn:E.
     - rewrite parse_args_primtok by exact E. rewrite R. reflexivity.
-    - destruct p as [| | | | |z|f|s|pa|a b]; try discriminate E; try congruence.
+    - destruct p as [| | | | |z|f|s|pa|a b|]; try discriminate E; try congruence.
       + destruct f; cbn in W; try congruence; discriminate E.
       + cbn [print_prim prim_atok] in *. unfold path_atok in *.
         destruct (print_path printable false true pa) as [|s r0|s r0|q raw r0|z r0|q r0] eqn:Ep;
@@ -898,6 +904,7 @@ Section Filtered.
         cbn [parse_primitive parse_atok] in R. rewrite E1, E2 in R.
         destruct (unescape s) as [s'| | |]; cbn [bind] in *; try discriminate.
         inversion R. reflexivity.
+      + contradiction.
   Qed.
 
   Lemma parse_params_print ps rest n : (List.length ps < n)%nat ->
@@ -1384,7 +1391,7 @@ Section Loop.
   Lemma print_prim_word p w : wf_prim p -> pprim p = TA (AWord w) ->
     p = PEmpty \/ p = PBlank \/ p = PPath (PName w PEnd).
   Proof.
-    intros W E. destruct p as [| | | | |z|f|s|pa|a b]; cbn [print_prim prim_atok] in E;
+    intros W E. destruct p as [| | | | |z|f|s|pa|a b|]; cbn [print_prim prim_atok] in E;
       try discriminate; auto.
     - destruct f as [m e|neg|]; cbn in W; try congruence; discriminate.
     - right. right. unfold path_atok in E.
@@ -1393,8 +1400,10 @@ Section Loop.
       destruct pa as [|s0 r|z r|q r]; cbn [print_path] in Ep; try discriminate.
       unfold quoted_seg in Ep. destruct (string_repr printable s0).
       destruct (is_property s0); cbn [negb] in Ep; [|discriminate].
-      destruct (true && match r with PEnd => true | _ => false end && is_reserved s0); [discriminate|].
+      destruct (true && (match r with PEnd => true | _ => false end && is_reserved s0
+                         || starts_uspace s0)); [discriminate|].
       inversion Ep as [[H1 H2]]. apply print_path_end in H2. subst. reflexivity.
+    - contradiction.
   Qed.
 
   Definition no_opts (l : loopexpr) : Prop :=
@@ -1402,12 +1411,16 @@ Section Loop.
 
   Definition opt_wf (o : option prim) : Prop := match o with Some p => wf_prim p | None => True end.
 
+  (** [offset:] takes a primitive or the keyword [continue]. *)
+  Definition offset_wf (o : option prim) : Prop :=
+    match o with Some PContinue => True | Some p => wf_prim p | None => True end.
+
   (** Loop expressions the parser can produce: array-literal iterables come
       without options. *)
   Definition wf_loop (l : loopexpr) : Prop :=
     is_word (lp_ident l) = true /\
     match lp_iter l with
-    | LPrim p => wf_prim p /\ opt_wf (lp_limit l) /\ opt_wf (lp_offset l) /\ opt_wf (lp_cols l)
+    | LPrim p => wf_prim p /\ opt_wf (lp_limit l) /\ offset_wf (lp_offset l) /\ opt_wf (lp_cols l)
     | LArray xs => xs <> [] /\ Forall wf_prim xs /\ no_opts l
     end.
 
@@ -1416,7 +1429,7 @@ Section Loop.
   Lemma pnb_not_sp sp p : is_sp (pnb sp p) = false.
   Proof.
     unfold print_not_bare.
-    destruct p as [| | | | |z|f|s|pa|a b]; try apply print_prim_not_sp.
+    destruct p as [| | | | |z|f|s|pa|a b|]; try apply print_prim_not_sp.
     destruct pa as [|w r|z r|q r]; try apply print_prim_not_sp.
     destruct r; try apply print_prim_not_sp.
     destruct (sp w); [reflexivity|apply print_prim_not_sp].
@@ -1425,7 +1438,7 @@ Section Loop.
   Lemma pnb_roundtrip sp p : wf_prim p -> parse_primitive (Some (pnb sp p)) = Ok p.
   Proof.
     intro W. unfold print_not_bare.
-    destruct p as [| | | | |z|f|s|pa|a b]; try apply (prim_roundtrip printable _ W).
+    destruct p as [| | | | |z|f|s|pa|a b|]; try apply (prim_roundtrip printable _ W).
     destruct pa as [|w r|z r|q r]; try apply (prim_roundtrip printable _ W).
     destruct r; try apply (prim_roundtrip printable _ W).
     destruct (sp w); [|apply (prim_roundtrip printable _ W)].
@@ -1443,7 +1456,7 @@ Section Loop.
     assert (D : pnb sp p = pprim p \/ exists w0, p = PPath (PName w0 PEnd) /\ sp w0 = true
                                                   /\ pnb sp p = TA (APath (quoted_seg printable w0 TPEnd))).
     { unfold print_not_bare.
-      destruct p as [| | | | |z|f|s|pa|a b]; try (left; reflexivity).
+      destruct p as [| | | | |z|f|s|pa|a b|]; try (left; reflexivity).
       destruct pa as [|w0 r|z r|q r]; try (left; reflexivity).
       destruct r; try (left; reflexivity).
       destruct (sp w0) eqn:Es; [right; exists w0; auto|left; reflexivity]. }
@@ -1558,6 +1571,11 @@ Section Loop.
     rewrite E. rewrite (pnb_roundtrip is_continue p W). reflexivity.
   Qed.
 
+  Lemma parse_opt_offset_continue R l :
+    parse_loop_opts ([word (lit "offset"); TColon; pnb is_continue PContinue] ++ R) l
+    = parse_loop_opts R (set_opt "offset" PContinue l).
+  Proof. reflexivity. Qed.
+
   Theorem print_parse_loop l : wf_loop l ->
     parse_loop (strip (print_loop printable l)) = Ok l.
   Proof.
@@ -1581,7 +1599,8 @@ Section Loop.
         { intros R l. destruct lim as [q|]; [apply parse_opt_limit; exact Wl|reflexivity]. }
         assert (A2 : forall R l, parse_loop_opts (sopt_offset off ++ R) l
                      = parse_loop_opts R (match off with Some q => set_opt "offset" q l | None => l end)).
-        { intros R l. destruct off as [q|]; [apply parse_opt_offset; exact Wo|reflexivity]. }
+        { intros R l. destruct off as [q|]; [|reflexivity].
+          destruct q; try (apply parse_opt_offset; exact Wo). apply parse_opt_offset_continue. }
         assert (A3 : forall R l, parse_loop_opts (sopt "cols" cols ++ R) l
                      = parse_loop_opts R (match cols with Some q => set_opt "cols" q l | None => l end)).
         { intros R l. destruct cols as [q|]; [apply parse_opt_cols; exact Wc|reflexivity]. }
@@ -1716,7 +1735,7 @@ Ltac solve_wf :=
          end;
   repeat match goal with
          | |- _ => progress unfold wf_fexpr, wf_left, wf_filter, wf_arg, wf_argval_pos, wf_argval_kw,
-                                    wf_loop, opt_wf, no_opts, wf_path, wf_str
+                                    wf_loop, opt_wf, offset_wf, no_opts, wf_path, wf_str
          | |- _ /\ _ => split
          | |- True => exact I
          | |- Forall _ [] => constructor
@@ -1776,7 +1795,7 @@ Proof. apply print_parse_filtered. exact ex_fexpr_wf. Qed.
 
 Definition ex_loop : loopexpr :=
   {| lp_ident := lit "item"; lp_iter := LPrim (PPath (PName (lit "xs") (PName (lit "all") PEnd)));
-     lp_limit := Some (PInt 2); lp_offset := Some (PStr (lit "continue"));
+     lp_limit := Some (PInt 2); lp_offset := Some PContinue;
      lp_cols := Some (PPath (PName (lit "n") PEnd)); lp_reversed := true |}.
 
 Example ex_loop_wf : wf_loop ex_loop.
